@@ -217,6 +217,9 @@ def nontrivial(case):
 
 def classes(case):
     out = sorted(_features(case))
+    if 'v' in case and case.get('pos') == 'value':
+        d = wire.tree_depth(case['v'])
+        out.append('depth<=8' if d <= 8 else 'depth<=32' if d <= 32 else 'depth>32')
     if case.get('kind'):
         out.append('kind=' + case['kind'])
     else:
@@ -235,6 +238,36 @@ def value_cases(tier):
 def deep_cases(tier):
     return st.fixed_dictionaries({'pos': st.just('value'),
                                   'v': wire.deep_wire_values(64)})
+
+
+def chain_sweep(tier, shard, nshards):
+    """every nesting depth 1..64 x chain pattern x a few leaves, bare and inside a method
+    table / a headers property"""
+    i = 0
+    for depth in range(1, 65):
+        for pattern in ('A', 'F', 'AF', 'FA'):
+            for leaf in (['V'], ['S', b'x'], ['b', -1]):
+                v = wire.chain(depth, pattern, leaf)
+                for where in ('value', 'method', 'header'):
+                    if i % nshards == shard:
+                        if where == 'value':
+                            yield {'pos': 'value', 'v': v}
+                        elif where == 'method':
+                            yield {'kind': 'method', 'cls': 'Queue.Declare', 'ch': 1,
+                                   'args': {'ticket': 0, 'queue': 'q', 'passive': False,
+                                            'durable': True, 'exclusive': False,
+                                            'auto_delete': False, 'nowait': False,
+                                            'arguments': [['deep', v]]}}
+                        else:
+                            yield {'kind': 'header', 'ch': 1, 'body_size': 1,
+                                   'weight': 0, 'unused_bit': False,
+                                   'extra_words': [],
+                                   'props': {'headers': [['deep', v]]}}
+                    i += 1
+
+
+def check_any(case):
+    return check_frame(case) if 'kind' in case else check_value(case)
 
 
 def tag_sweep(tier, shard, nshards):
@@ -274,6 +307,11 @@ COMPONENTS = [
               classes=classes, shards={'quick': 4, 'thorough': 4}, exhaustive=True,
               describe='one wire frame per method class with all 19 tags in every '
                        'table argument; two content headers; body; heartbeat; protocol'),
+    Component('chains', check_any, cases=chain_sweep,
+              nontrivial=lambda c: True, exhaustive=True,
+              classes=lambda c: ['where=' + c.get('kind', 'value')],
+              describe='container chains of every depth 1..64 (A, F, alternating), bare '
+                       'and inside a method table / the headers property'),
     Component('tag-ranges', check_value, cases=tag_sweep, nontrivial=nontrivial,
               classes=classes, shards={'quick': 8, 'thorough': 8},
               describe='every 8/16-bit value of tags t b B s u; boundaries of I i l L T'),
